@@ -89,8 +89,10 @@ func ownerClose(c *Ctx, rule string) {
 			fatalf("owner type %s.%s not found", o.pkg, o.typ)
 		}
 		st := named.Underlying().(*types.Struct)
-		released := map[string]ssa.Instruction{}
-		eachInstr(cl, func(in ssa.Instruction) {
+		// Close and the release helpers it delegates to
+		rg := p.RegionOf(cl, 2)
+		released := map[string]regionInstr{}
+		rg.Instrs(func(site regionSite, in ssa.Instruction) {
 			cc := callCommon(in)
 			if cc == nil || cc.StaticCallee() == nil || cc.StaticCallee().Signature.Recv() == nil {
 				return
@@ -99,10 +101,10 @@ func ownerClose(c *Ctx, rule string) {
 			if n != "Close" && n != "Destroy" {
 				return
 			}
-			t := p.TermOf(cc.Args[0])
-			t.Has(func(x *Term) bool {
+			t := rg.Term(site, cc.Args[0])
+			t.HasLocal(func(x *Term) bool {
 				if x.Op == "field" && x.Args[0].IsParam(cl, 0) {
-					released[x.Name] = in
+					released[x.Name] = regionInstr{site, in}
 				}
 				return false
 			})
@@ -123,13 +125,9 @@ func ownerClose(c *Ctx, rule string) {
 		}
 		// column families before the database
 		if dbc, ok := released["db"]; ok {
-			if cf, ok2 := released["cfHandles"]; ok2 && instrReaches(dbc, cf) {
+			if cf, ok2 := released["cfHandles"]; ok2 && rg.Reaches(dbc, cf) {
 				bad++
-				c.Fail(rule, o.typ+":order", dbc.Pos(), "the database is closed before its column-family handles are destroyed")
-			}
-			for name, in := range released {
-				_ = name
-				_ = in
+				c.Fail(rule, o.typ+":order", dbc.in.Pos(), "the database is closed before its column-family handles are destroyed")
 			}
 		}
 		if bad == 0 {
@@ -143,6 +141,7 @@ func nodeShutdown(c *Ctx, rule string) {
 	cl := p.MustMethod(pkgConsensus, "RaftNode", "Close")
 	type comp struct{ field, method string }
 	comps := []comp{{"raft", "Shutdown"}, {"transport", "Close"}, {"raftLog", "Close"}, {"balloon", "Close"}, {"db", "Close"}}
+	rg := p.RegionOf(cl, 2) // Close and the per-component shutdown helpers it may delegate to
 	calls := map[string]ssa.Instruction{}
 	for _, k := range comps {
 		k := k
@@ -158,8 +157,8 @@ func nodeShutdown(c *Ctx, rule string) {
 			} else if f := cc.StaticCallee(); f != nil && len(cc.Args) > 0 {
 				name, recv = f.Name(), cc.Args[0]
 			}
-			if name == k.method && recv != nil && p.TermOf(recv).IsField(k.field, isParam(cl, 0)) {
-				calls[k.field] = in
+			if name == k.method && recv != nil && rg.TermIn(in, recv).IsField(k.field, isParam(cl, 0)) {
+				calls[k.field] = rg.Anchor(regionInstr{rg.SiteOf(in.Parent()), in})
 				return true
 			}
 			return false
@@ -170,6 +169,7 @@ func nodeShutdown(c *Ctx, rule string) {
 				return false
 			}
 			cd := p.condOf(ifi.Cond, succ == 0)
+			cd.Atom = rg.LiftIn(b.Parent(), cd.Atom)
 			// field is nil / node already closed: nothing to release on that edge
 			if cd.Atom.Op == "EQ" && cd.Pol {
 				for i := 0; i < 2; i++ {
@@ -183,7 +183,7 @@ func nodeShutdown(c *Ctx, rule string) {
 			}
 			return false
 		}
-		esc := p.EscapesWithout(cl, hit, mustOpts{skipErrEdges: true, skipEdge: skip})
+		esc := rg.EscapesWithoutDeep(hit, mustOpts{skipErrEdges: true, skipEdge: skip})
 		c.Check(esc == nil, rule, funcName(cl)+":"+k.field, cl.Pos(), k.field+"."+k.method+"() on every successful shutdown path (or the field is nil)", "a successful shutdown can return without "+k.field+"."+k.method+"(): the component keeps its storage resources")
 	}
 	if dbc, ok := calls["db"]; ok {
